@@ -120,12 +120,15 @@ impl<T: std::future::Future> std::future::Future for InSpan<T> {
     fn poll(self: std::pin::Pin<&mut Self>, cx: &mut std::task::Context<'_>) -> Poll<Self::Output> {
         let this = self.project();
 
-        let _guard = this.span.as_ref().map(|s| s.set_local_parent());
+        let guard = this.span.as_ref().map(|s| s.set_local_parent());
         let res = this.inner.poll(cx);
 
         match res {
             r @ Poll::Pending => r,
             other => {
+                // Submit what this poll recorded before the span itself finishes: if the span is
+                // a root, everything submitted after it would miss the trace.
+                drop(guard);
                 this.span.take();
                 other
             }
